@@ -76,13 +76,19 @@ class Triple(object):
         return keypool.pgpy_key(cert or self.signer_cert)
 
     def pg_subject(self):
+        if self.kind in ('doc', 'text') and getattr(self, 'as_message', None):
+            # the document handed over as a message object (with the signature detached from it)
+            import pgpy
+            if self.as_message == 'cleartext':
+                return pgpy.PGPMessage.new(bytes(self.doc).decode('utf-8', 'replace'), cleartext=True)
+            return pgpy.PGPMessage.new(bytes(self.doc), format='b', compression=pgpy.constants.CompressionAlgorithm.Uncompressed)
         if self.kind in ('doc', 'text'):
             return bytes(self.doc)
         if self.kind == 'none':
             return None
         if self.kind == 'cert':
             k = keypool.pgpy_key(wire.build_packet(6, self.tprimary) + wire.build_packet(13 if self.uid_kind == 'uid' else 17, self.uid_data))
-            return (k.userids if self.uid_kind == 'uid' else k.userattributes)[0], k
+            return (k._uids[0] if self.uid_kind == 'uid' else k.userattributes[0]), k
         if self.kind == 'key':
             return keypool.pgpy_key(wire.build_packet(6, self.tprimary))
         if self.kind == 'subkey':
